@@ -114,6 +114,46 @@ def task_grouped(arg):
     return out.dump()
 
 
+def task_medium(n):
+    """Arrays of medium length (around typical buffer / vector sizes), many groups, special values."""
+    out = Partial()
+    for ngroups in (1, 3, 70, max(n // 2, 1)):
+        gid = ((np.arange(n) * 7 + 3) % ngroups) * 11 + (0 if ngroups % 2 else 5)
+        cols = {
+            "float": ((np.arange(n) % 17) - 8) * 0.25,
+            "float-special": np.where(np.arange(n) % 29 == 0, np.inf, np.where(np.arange(n) % 31 == 1, -0.0, (np.arange(n) % 5) * 1.5)),
+            "float-nan": np.where(np.arange(n) % 13 == 0, np.nan, 2.0),
+            "int": (np.arange(n) % 9) - 4,
+            "int-large": np.full(n, 10**9 + 7, dtype=np.int64),  # group sums stay below 2**53 (numpy_groupies sums through float64)
+            "bool": np.arange(n) % 3 != 0,
+            "bool-all-true": np.ones(n, dtype=bool),
+        }
+        out.add_states(1)
+        for tag, col in cols.items():
+            base = tag.split("-")[0]
+            for kind in APPLICABLE[base]:
+                if tag == "float-nan" and kind in ("max", "min"):
+                    continue  # ordering of NaN is not defined by the property
+                case = {"kind": kind, "dtype": tag, "n": n, "groups": ngroups}
+                try:
+                    got = np.asarray(KINDS[kind](col, gid))
+                except Exception as e:  # noqa: BLE001
+                    out.violation(f"grouped_{kind}:{tag}:exception:{type(e).__name__}", case, repr(e)[:200])
+                    continue
+                out.step()
+                want = RA.grouped(kind, col.tolist(), gid.tolist())
+                gl = got.tolist()
+                bad = [i for i, (a, b) in enumerate(zip(gl, want)) if not (a == b or (a != a and b != b))]
+                if bad:
+                    i = bad[0]
+                    out.violation(f"grouped_{kind}:{tag}:value", {**case, "position": i}, f"length {n}, {ngroups} groups, position {i}: got {gl[i]!r} expected {want[i]!r}")
+        cnt = np.asarray(AG.grouped_count(gid)).tolist()
+        if [float(x) for x in cnt] != [float(x) for x in RA.grouped("count", None, gid.tolist())]:
+            out.violation("grouped_count:value", {"n": n, "groups": ngroups}, "count differs")
+    out.sample({"medium_n": n}, limit=1)
+    return out.dump()
+
+
 def task_pointer(arg):
     """sum_by_p_id and join_numpy over all pointer columns in {-1, -5, valid ids} and all store orders."""
     n, dense = arg
@@ -276,6 +316,23 @@ def check_precedence(rep, date_iso):
     cases.append(("vermögen_bedürft_hh", None, "sum", "vermögen_bedürft", "automatic-sum"))
     cases.append(("anz_personen_hh", {"anz_personen_hh": {"aggr": "count"}}, "count", None, "user-count"))
     cases.append(("foo_bar_hh", {"foo_bar_hh": {"source_col": "alter", "aggr": "max"}}, "max", "alter", "user-new-name"))
+    # user specs at other grouping levels and for names with a time suffix
+    extra_levels = []
+    for lvl in ("fg", "bg", "sn", "eg", "ehe", "wthh"):
+        extra_levels.append((f"bruttolohn_m_{lvl}", {f"bruttolohn_m_{lvl}": {"source_col": "bruttolohn_m", "aggr": "max"}}, "max", "bruttolohn_m", lvl))
+        extra_levels.append((f"alter_min_{lvl}", {f"alter_min_{lvl}": {"source_col": "alter", "aggr": "min"}}, "min", "alter", lvl))
+        extra_levels.append((f"anz_erwachsene_{lvl}", {f"anz_erwachsene_{lvl}": {"source_col": "alter", "aggr": "max"}}, "max", "alter", lvl))
+    for tgt, specs, kind, src, lvl in extra_levels:
+        rep.state(("precedence-level", tgt, kind))
+        try:
+            r = run([tgt, f"{lvl}_id"], specs)
+        except Exception as e:  # noqa: BLE001
+            rep.violation(f"precedence:user-spec-at-{lvl}:{tgt}:exception:{type(e).__name__}", {"target": tgt, "specs": specs}, repr(e)[:200])
+            continue
+        rep.step()
+        want = RA.grouped(kind, df[src].tolist(), r[f"{lvl}_id"].tolist())
+        if [float(x) for x in r[tgt].tolist()] != [float(x) for x in want]:
+            rep.violation(f"precedence:user-spec-at-{lvl}:{tgt}", {"target": tgt, "specs": specs, "date": date_iso}, f"got {r[tgt].tolist()} expected {want}")
     for tgt, specs, kind, src, label in cases:
         rep.state(("precedence", tgt, kind, label))
         try:
@@ -347,6 +404,8 @@ def run(tier):
         tasks += [(n, n <= (5 if thorough else 4), pre) for pre in itertools.product(GIDS, repeat=k)]
     for part in harness.pmap(task_grouped, harness.rotate(tasks)):
         rep.merge(part)
+    for part in harness.pmap(task_medium, [6, 31, 32, 33, 64, 255, 256, 257, 300, 1000, 1025, 4097]):
+        rep.merge(part)
     ptasks = [(n, False) for n in (1, 2, 3)] + [(n, True) for n in (1, 2, 3, 4)] + ([(4, False), (5, True)] if thorough else [])
     for part in harness.pmap(task_pointer, ptasks):
         rep.merge(part)
@@ -360,7 +419,7 @@ def run(tier):
     rep.bound = {"array_length": nmax, "group_id_alphabet": GIDS, "full_value_alphabets_up_to": 5 if thorough else 4,
                  "pointer_n": 4 if thorough else 3, "graph_dates": [d.isoformat() for d in dates]}
     rep.assumptions = ["reference mc/ref/aggregate.py (dict of member lists, math.fsum); dyadic values make float sums exact",
-                       "grouped_count's dtype is not constrained (implementation returns float counts)",
+                       "grouped_count's dtype is not constrained (implementation returns float counts)", "integer group sums are exact up to 2**53 (numpy_groupies accumulates in float64); larger sums are outside the alphabet",
                        "by-p_id kinds other than sum raise NotImplementedError in the numpy backend (loud, accepted)"]
     return rep.finish(
         "all group-id assignments of length n over a sparse unsorted id alphabet x value columns (distinct dyadic floats/ints identifying "
